@@ -6,6 +6,7 @@ map_overlap call the user's block function once per block with exactly the block
 the whole array.  Validated against real dask by a concrete differential
 (sx/selftest_dask.py run in the /venv worker).
 """
+import builtins as _bi
 import itertools
 
 import numpy as _np
@@ -36,7 +37,7 @@ def _norm_chunks(chunks, shape, current=None):
                 out.append((c,) * q + ((r,) if r else ()))
         else:
             c = tuple(int(v) for v in c)
-            if sum(c) != n:
+            if _bi.sum(c) != n:
                 raise ValueError("chunks %r do not add up to %d" % (c, n))
             out.append(c)
     return tuple(out)
@@ -108,7 +109,7 @@ class Array:
 
     @property
     def chunksize(self):
-        return tuple(max(c) for c in self.chunks)
+        return tuple(_bi.max(c) for c in self.chunks)
 
     @property
     def numblocks(self):
@@ -116,7 +117,7 @@ class Array:
 
     @property
     def _meta(self):
-        return _np.empty((0,) * max(self.ndim, 0))
+        return _np.empty((0,) * self.ndim)
 
     def __len__(self):
         return self.shape[0]
@@ -322,7 +323,7 @@ def map_blocks(f, *args, dtype=None, meta=None, chunks=None, drop_axis=None, new
 
 def ensure_minimum_chunksize(size, chunks):
     """verbatim port of dask.array.overlap.ensure_minimum_chunksize (dask 2026.8)"""
-    if size <= min(chunks):
+    if size <= _bi.min(chunks):
         return chunks
     output = []
     new = 0
@@ -343,7 +344,7 @@ def ensure_minimum_chunksize(size, chunks):
     elif len(output) >= 1:
         output[-1] += new
     else:
-        raise ValueError("The overlapping depth %d is larger than your array %d." % (size, sum(chunks)))
+        raise ValueError("The overlapping depth %d is larger than your array %d." % (size, _bi.sum(chunks)))
     return tuple(output)
 
 
